@@ -1,5 +1,5 @@
 use crate::{
-  native, native_with_error,
+  create_error, native, native_with_error,
   support::{export_and_insert, load_class_from_module},
   StdResult,
 };
@@ -170,11 +170,10 @@ impl LyNative for TupleStr {
           buf.push_str(", ");
         } else {
           // if error throw away temporary strings
-          return hooks.call(
+          return create_error!(
             self.error,
-            &[val!(hooks.manage_str(format!(
-              "Expected type str from {item}.str()"
-            )))],
+            hooks,
+            format!("Expected type str from {item}.str()")
           );
         });
       }
@@ -191,12 +190,10 @@ impl LyNative for TupleStr {
           buf.push_str(&string);
         } else {
           // if error throw away temporary strings
-          return hooks.call(
+          return create_error!(
             self.error,
-            &[val!(hooks.manage_str(format!(
-              "Expected type str from {}.str()",
-              *last
-            )))],
+            hooks,
+            format!("Expected type str from {}.str()", *last)
           );
         });
       })
